@@ -39,13 +39,13 @@ REACH = [("yamlpath/differ/differ.py", "_diff_between,_diff_dicts,_diff_lists,_d
          ("yamlpath/differ/differconfig.py", "array_diff_mode,aoh_diff_mode,aoh_diff_key", "DifferConfig modes")]
 SIZES = {"quick": 150000, "thorough": 3000000}
 REQUIRED_COUNTERS = ["truth_checked", "iff_checked", "conservation_checked", "reflexive_checked", "reused_differ_cases",
-                     "pairs_with_anchored_scalars"]
+                     "pairs_with_anchored_scalars", "pairs_with_aliased_containers"]
 ARR = ["position", "value"]
 AOH = ["position", "dpos", "value", "key", "deep"]
 
 
 # ---- tree edits ---------------------------------------------------------------------------
-SC = ["null", "true", "1", "2", "1.5", "a", "b", "ab", "''", "x y"]
+SC = ["null", "true", "1", "2", "1.5", "a", "b", "ab", "''", "x y", "' a'", "'a '", "'a\n'"]     # padded: differ from a by white space only
 KEYS = ["a", "b", "c", "id", "name"]
 
 
@@ -61,7 +61,16 @@ def gen_tree(rng, depth=0, want=None):
     n = rng.randrange(0, 4)
     if want == "map":
         ks = rng.sample(KEYS, min(n, len(KEYS)))
-        return ("map", [(k, gen_tree(rng, depth + 1)) for k in ks])
+        items = [(k, gen_tree(rng, depth + 1)) for k in ks]
+        conts = [i for i, (_k, v) in enumerate(items) if v[0] in ("map", "seq")]
+        free = [k for k in KEYS if k not in ks]
+        if conts and free and rng.random() < 0.15:
+            # an anchored Hash / Array that is aliased under another key: one object living at two paths
+            i = rng.choice(conts)
+            name = "C%d" % rng.randrange(10 ** 6)
+            items[i] = (items[i][0], ("anc", name, items[i][1]))
+            items.append((rng.choice(free), ("ali", name)))
+        return ("map", items)
     if want == "seq":
         return ("seq", [gen_tree(rng, depth + 1, rng.choice(["scalar", "scalar", "scalar", None])) for _ in range(n)])
     if want == "aoh":
@@ -137,6 +146,12 @@ def edit_tree(rng, t):
             return ("seq", items)
         if n[0] == "set":
             return ("set", rng.sample(["p", "q", "r", "s"], rng.randrange(1, 3)))
+        if n[0] == "anc" and n[2][0] != "s":
+            return n                         # an aliased container keeps its anchor (its alias lives elsewhere)
+        if n[0] == "ali":
+            return n
+        if n[0] == "s" and n[1] in ("a", "' a'", "'a '") and op < 0.4:
+            return ("s", rng.choice(["a", "' a'", "'a '", '"a\\n"']))      # the same text with other surrounding white space
         if n[0] == "anc" and op < 0.5:
             return n[2]                      # same data without the anchor
         if n[0] == "s" and op < 0.15 and n[1] != "null":
@@ -349,6 +364,8 @@ def check_pair(ctx, ltext, rtext, arr, aoh, earlier_rhs=None):
         return
     if "&" in ltext or "&" in rtext:
         ctx.count("pairs_with_anchored_scalars")
+    if "&C" in ltext or "&C" in rtext:
+        ctx.count("pairs_with_aliased_containers")
     cfg = DifferConfig(LOG, SimpleNamespace(arrays=arr, aoh=aoh))
     ctx.evaluations += 1
     try:
